@@ -14,6 +14,7 @@ package main
 
 import (
 	"bytes"
+	"context"
 	crand "crypto/rand"
 	"fmt"
 	"io"
@@ -366,8 +367,12 @@ func (h *hist) poll(router opfix.Router, cr creds, dc string, fault string) {
 	cr.form(form)
 	fc := "FNone"
 	if fault != "" {
-		h.st.FaultMethod, h.st.FaultKind = "GetDeviceAuthorizatonState", fault
-		fc = map[string]string{"deadline": "FDeadline", "error": "FError"}[fault]
+		goErr, coqErr, shape := h.faultValue(fault == "deadline")
+		h.mut(fault + ":" + shape)
+		h.st.FaultMethod, h.st.FaultKind = "GetDeviceAuthorizatonState", "error"
+		h.st.SetFaultErr(goErr)
+		defer h.st.SetFaultErr(nil)
+		fc = emit.Ctor("FFail", coqErr)
 	}
 	now := time.Now().UnixNano()
 	m := h.meta()
@@ -380,6 +385,42 @@ func (h *hist) poll(router opfix.Router, cr creds, dc string, fault string) {
 	}
 	h.obs = append(h.obs, obs)
 	h.human = append(h.human, fmt.Sprintf("poll %s host=%s forwarded=%q %+v dc=%q fault=%q -> %d %s", router, m.host, m.header, cr, dc, fault, resp.Status, clip(resp.Body)))
+}
+
+// faultValue draws the error VALUE a failing GetDeviceAuthorizatonState returns and
+// its rendering as a Gallina errv: a leaf (context.DeadlineExceeded when the
+// cause is the time-out; else context.Canceled, the injected failure, or an
+// error that only MENTIONS the deadline in its text) under 0-3 wrappers
+// (fmt.Errorf %w, *oidc.Error of some type with the inner error as Parent).
+func (h *hist) faultValue(deadline bool) (error, string, string) {
+	var err error
+	var coq, shape string
+	switch {
+	case deadline:
+		err, coq, shape = context.DeadlineExceeded, "EDeadline", "deadline"
+	case h.r.Chance(1, 4):
+		err, coq, shape = context.Canceled, "ECanceled", "canceled"
+	case h.r.Chance(1, 4): // %v, not %w: the chain does not contain the deadline
+		err, coq, shape = fmt.Errorf("storage: %v", context.DeadlineExceeded), "EPlain", "textonly"
+	case h.r.Chance(1, 6): // an *oidc.Error without any parent
+		return oidc.ErrServerError().WithDescription("storage down"), emit.Ctor("EOidc", emit.Str("server_error"), emit.None), "oidc-bare"
+	default:
+		err, coq, shape = refstore.ErrInjected, "EPlain", "plain"
+	}
+	for n := drv.Pick(h.r, []int{0, 0, 1, 1, 1, 2, 3}); n > 0; n-- {
+		switch k := h.r.IntN(5); k {
+		case 0, 1:
+			err, coq, shape = fmt.Errorf("get device state: %w", err), emit.Ctor("EWrap", coq), "w("+shape+")"
+		case 2, 3: // the style NewStatusError's documentation recommends for storage errors
+			err, coq, shape = oidc.ErrServerError().WithParent(err), emit.Ctor("EOidc", emit.Str("server_error"), emit.Some(coq)), "server_error("+shape+")"
+		default:
+			mk := drv.Pick(h.r, []func() *oidc.Error{oidc.ErrAccessDenied, oidc.ErrInvalidRequest, oidc.ErrInvalidGrant, oidc.ErrSlowDown, oidc.ErrAuthorizationPending})
+			e := mk()
+			ty := string(e.ErrorType)
+			err, coq, shape = e.WithParent(err), emit.Ctor("EOidc", emit.Str(ty), emit.Some(coq)), ty+"("+shape+")"
+		}
+	}
+	return err, coq, shape
 }
 
 // splitScope is the inverse of the space-delimited rendering of a scope list.
@@ -867,7 +908,7 @@ func main() {
 			Observed: emit.Ctor("OUserCode", emit.Some(emit.Str("BA"))), Tags: []string{"kind=selftest"}})
 	}
 	err := w.Close(emit.Meta{Property: "C16", Tier: cfg.Tier, Seed: cfg.Seed,
-		Rule:  "2 of 3 cases: a history of 6-15 device_authorization/approve/deny/poll operations by 2-3 clients (confidential web, public native, optionally a post/JWT/spa/no-device-grant client) on both routers over one refstore; the provider's issuer is static (with or without a path component) or derived from every request (IssuerFromHost / IssuerFromForwardedOrHost) and every request - device authorization and token request alike - arrives under its own Host / Forwarded header, so one provider instance serves requests under different issuers (iss of the ID token / JWT access token is observed); the storage hands out copies of its device state or the live state (devstate=) and ignores the state of the context it is called with or fails with ctx.Err() on a done context in every method (ctx=); scope lists: none, single, subsets in usual / shuffled order, repetitions at the start / adjacent / middle / end / of the first element, all elements equal, 20-80 scopes beyond 1 and 4 KiB, unregistered / near-miss (case, U+017F, U+212A) / keyword-like scopes; UserFormPath or the deprecated absolute UserFormURL: flow-first (start a flow with canonical credentials, poll, approve, poll) with mutations (foreign client, wrong/missing/post/mixed credentials, client ids that differ by case / white space / trailing slash, a private_key_jwt client without assertion, unknown code incl. case / white-space / padding / keyword variants of an issued one, user code as device code, storage deadline/error, bogus user codes, expired devices via negative lifetime, exhausted random source); 1 of 3 cases: op.NewUserCode directly with crypto/rand.Reader pinned (alphabets incl. non-ASCII, 1, 256 and 300 runes, dash 0 / 1 / >= n, F17 classes). Non-trivial = a history in which a device code was issued, or a produced user code; distinct = distinct (input hash, set of answer kinds).",
+		Rule:  "2 of 3 cases: a history of 6-15 device_authorization/approve/deny/poll operations by 2-3 clients (confidential web, public native, optionally a post/JWT/spa/no-device-grant client) on both routers over one refstore; the provider's issuer is static (with or without a path component) or derived from every request (IssuerFromHost / IssuerFromForwardedOrHost) and every request - device authorization and token request alike - arrives under its own Host / Forwarded header, so one provider instance serves requests under different issuers (iss of the ID token / JWT access token is observed); the storage hands out copies of its device state or the live state (devstate=) and ignores the state of the context it is called with or fails with ctx.Err() on a done context in every method (ctx=); scope lists: none, single, subsets in usual / shuffled order, repetitions at the start / adjacent / middle / end / of the first element, all elements equal, 20-80 scopes beyond 1 and 4 KiB, unregistered / near-miss (case, U+017F, U+212A) / keyword-like scopes; UserFormPath or the deprecated absolute UserFormURL: flow-first (start a flow with canonical credentials, poll, approve, poll) with mutations (foreign client, wrong/missing/post/mixed credentials, client ids that differ by case / white space / trailing slash, a private_key_jwt client without assertion, unknown code incl. case / white-space / padding / keyword variants of an issued one, user code as device code, a failing GetDeviceAuthorizatonState whose error value is a leaf (context.DeadlineExceeded / context.Canceled / plain / deadline only in the text) under 0-3 wrappers (fmt.Errorf %w, *oidc.Error server_error or another type with the inner error as Parent), bogus user codes, expired devices via negative lifetime, exhausted random source); 1 of 3 cases: op.NewUserCode directly with crypto/rand.Reader pinned (alphabets incl. non-ASCII, 1, 256 and 300 runes, dash 0 / 1 / >= n, F17 classes). Non-trivial = a history in which a device code was issued, or a produced user code; distinct = distinct (input hash, set of answer kinds).",
 		Extra: map[string]any{"clock_ambiguous": extra["clock_ambiguous"]},
 		Notes: []string{"f17=1: user-code configurations that made op.NewUserCode panic before fix F17; f21=1: a client without the device grant starts a flow on the Legacy router (former defect F21, fixed by C05)"},
 	})
